@@ -1055,5 +1055,10 @@ func (r *rw) rangeOverChan(x *ast.RangeStmt) []ast.Stmt {
 		body = append(body, bs)
 	}
 	loop.Body.List = body
-	return []ast.Stmt{&ast.BlockStmt{List: st}}
+	// not wrapped in a block: a label in front of the range statement must end up on the loop itself
+	return st
+}
+
+func parseForTest(raw []byte) (*ast.File, error) {
+	return parser.ParseFile(token.NewFileSet(), "x.go", raw, 0)
 }
